@@ -90,6 +90,13 @@ Clauses ==
    C13_QueueComplete |-> C13_QueueComplete(st),
    C13_OnceOnTime |-> C13_OnceOnTime(pre, ev, st, gh),
    C13_NoHalt |-> C13_NoHalt(ev),
+   C07_RequestRecords |-> C07_RequestRecords(st, gh),
+   C07_WithdrawTo |-> C07_WithdrawTo(pre, ev, st, gpre),
+   C08_OneOutcomeH |-> C08_OneOutcomeH(pre, ev, st, gpre, gh),
+   C08_AuthorityH |-> C08_AuthorityH(ev, st, gpre, gh),
+   C08_ScheduleH |-> C08_ScheduleH(pre, ev, st, gpre, gh),
+   C08_BatchDue |-> C08_BatchDue(pre, ev, st, gpre, gh),
+   C13_QueueH |-> C13_QueueH(st, gh),
    X07_RefundTiming |-> X07_RefundTiming(pre, ev, st),
    X07_EnableDisable |-> X07_EnableDisable(pre, ev, st),
    X07_MinDeposit |-> X07_MinDeposit(pre, ev, st),
